@@ -97,25 +97,36 @@ Proof.
   intros Hr H Hres. unfold ofinally. destruct r2 as [o|v|]; try contradiction; rewrite H, Hres; reflexivity.
 Qed.
 
-(* witnesses of otto's label handling defects (wf = false), by evaluation *)
+(* the former witnesses of otto's label handling defect (repaired in /repo: the labelled statement itself now takes a
+   break that targets its label).  They lie outside the syntactic guard wf of the simulation theorem - the body of the
+   labelled statement is an if, a bare break, a try whose catch clause jumps - and both semantics now agree on them:
+   same log, same final outcome, label stack restored *)
 Definition w_label_if : prog :=
   [SLabelled 1%nat (SIf (ELit (VBool true)) (SBreak 1%nat) None); SExpr (ELog (ELit (VNum 5)))].
 Definition w_label_catch : prog :=
   [SLabelled 1%nat (STry [SThrow (ELit (VNum 1))] (Some [SBreak 1%nat]) None); SExpr (ELog (ELit (VNum 5)))].
 Definition w_label_bare : prog :=
   [SLabelled 1%nat (SBreak 1%nat); SExpr (ELog (ELit (VNum 5)))].
+Definition w_label_fn : prog :=
+  [SLabelled 1%nat (SIf (ELit (VBool true)) (SBreak 1%nat) None); SReturn (ELit (VNum 7))].
 
 Definition differs (p : prog) : bool :=
   let '(so, _, oo) := run_o 50 [] 0 p in
   let '(ss, os) := run_s 50 [] 0 p in
   negb (Nat.eqb (length (out so)) (length (out ss))).
 
-Lemma w_label_if_differs : differs w_label_if = true /\ wf (SBlock w_label_if) = false.
-Proof. split; vm_compute; reflexivity. Qed.
-Lemma w_label_catch_differs : differs w_label_catch = true /\ wf (SBlock w_label_catch) = false.
-Proof. split; vm_compute; reflexivity. Qed.
-Lemma w_label_bare_differs : differs w_label_bare = true /\ wf (SBlock w_label_bare) = false.
-Proof. split; vm_compute; reflexivity. Qed.
+Definition agrees_on (p : prog) (lg : list val) (o : outcome) : Prop :=
+  (let '(so, L, oo) := run_o 50 [] 0 p in (out so, L, oo)) = (lg, [], o) /\
+  (let '(ss, os) := run_s 50 [] 0 p in (out ss, os)) = (lg, o).
+
+Lemma w_label_if_agrees : agrees_on w_label_if [VNum 5] ONormal /\ wf (SBlock w_label_if) = false.
+Proof. split; [split|]; vm_compute; reflexivity. Qed.
+Lemma w_label_catch_agrees : agrees_on w_label_catch [VNum 5] ONormal /\ wf (SBlock w_label_catch) = false.
+Proof. split; [split|]; vm_compute; reflexivity. Qed.
+Lemma w_label_bare_agrees : agrees_on w_label_bare [VNum 5] ONormal /\ wf (SBlock w_label_bare) = false.
+Proof. split; [split|]; vm_compute; reflexivity. Qed.
+Lemma w_label_fn_agrees : agrees_on w_label_fn [] (OReturned (VNum 7)) /\ wf (SBlock w_label_fn) = false.
+Proof. split; [split|]; vm_compute; reflexivity. Qed.
 
 (* a well-formed program with every construct, to show the guard is met *)
 Definition w_wf : prog :=
